@@ -52,6 +52,35 @@ pub struct CampaignStats {
     pub net_calls: u64,
     pub net_under_lock: u64,
     pub panics: u64,
+    /// ids of histories during which a panic was observed in any thread of the process
+    pub panic_histories: Vec<String>,
+}
+
+/// Panics anywhere in the process (library threads included) are counted, never swallowed.
+pub static PANICS: std::sync::atomic::AtomicU64 = std::sync::atomic::AtomicU64::new(0);
+/// Crash journal: the history being run (H, L and every O line before it is executed), so that a
+/// panic that aborts the process (unwinding out of an `extern "C"` function) still leaves a replay.
+pub static JOURNAL: std::sync::Mutex<Option<std::fs::File>> = std::sync::Mutex::new(None);
+
+pub fn set_journal(path: &str) {
+    *JOURNAL.lock().unwrap() = std::fs::File::create(path).ok();
+}
+
+fn journal_start(lines: &[String]) {
+    use std::io::Seek;
+    if let Some(f) = JOURNAL.lock().unwrap().as_mut() {
+        let _ = f.set_len(0);
+        let _ = f.seek(std::io::SeekFrom::Start(0));
+        for l in lines { let _ = writeln!(f, "{}", l); }
+        let _ = f.flush();
+    }
+}
+
+fn journal_op(line: &str) {
+    if let Some(f) = JOURNAL.lock().unwrap().as_mut() {
+        let _ = writeln!(f, "{}", line);
+        let _ = f.flush();
+    }
 }
 
 pub fn op_kind(op: &Op) -> String {
@@ -90,6 +119,12 @@ pub fn run_history(
     let mut contents: BTreeSet<Vec<u8>> = ctx.all_contents.iter().cloned().collect();
     let mut sigs: BTreeSet<String> = ctx.all_sigs.iter().cloned().collect();
     let mut k = 0usize;
+    let head = vec![
+        format!("H {} plat={} arch={}", id, enc_tok(updater::verif_hooks::current_platform()), enc_tok(updater::verif_hooks::current_arch())),
+        format!("L {} {}", enc_tok("libapp.so"), enc_hex(&ctx.base)),
+    ];
+    journal_start(&head);
+    let panics_before = PANICS.load(std::sync::atomic::Ordering::SeqCst);
     while let Some(op) = ops_source(&runner, k) {
         let stream = match &op {
             Op::Update { dl: Some(c), .. } => Some(decompressed_prefix(c)),
@@ -100,6 +135,7 @@ pub fn run_history(
         }
         if let Op::Dmg(Damage::ArtSet(_, b)) = &op { contents.insert(b.clone()); }
         lines.push(format!("O {}", render_op(&op, stream.as_deref())));
+        journal_op(lines.last().unwrap());
         let ret = runner.exec(&op);
         let obs = runner.observe(ret.clone());
         if let Some((arts, _)) = &obs.pd {
@@ -112,6 +148,7 @@ pub fn run_history(
         k += 1;
     }
     stats.histories += 1;
+    if PANICS.load(std::sync::atomic::Ordering::SeqCst) != panics_before { stats.panic_histories.push(id.to_string()); }
     writeln!(out, "H {} plat={} arch={}", id, enc_tok(updater::verif_hooks::current_platform()), enc_tok(updater::verif_hooks::current_arch())).unwrap();
     writeln!(out, "L {} {}", enc_tok("libapp.so"), enc_hex(&ctx.base)).unwrap();
     // ring's verdicts for every (key, content hash, signature) triple this history can ask about
